@@ -45,4 +45,17 @@ theorem fxk_general (ot : OtFun (BitVec 128)) (h : OtSpec ot) (r s : BLabel) (b 
   · simp [hb, fromOT_toOT, lxor, ← BitVec.xor_assoc]
   · simp [hb, fromOT_toOT]
 
+/-! ### Histories of gadget calls -/
+
+/-- The operands of a gadget call are in the property's domain. -/
+def GCall.Ok : GCall → Prop
+  | .fx _ a b => a ≤ 1 ∧ b ≤ 1
+  | .fxk _ _ b => b ≤ 1
+
+/-- The outputs of a gadget call are XOR shares of the product. -/
+def GShares : GCall → GOut → Prop
+  | .fx _ a b, .fx o => o.r ^^^ o.xb = a * b ∧ o.r ≤ 1 ∧ o.xb ≤ 1
+  | .fxk _ s b, .fxk o => o.r ^^^ o.xb = if b = 1 then s else 0#32
+  | _, _ => False
+
 end Mpc.Fx
